@@ -1,6 +1,7 @@
 package props
 
 import (
+	"github.com/jig/lisp/lisperror"
 	"context"
 	"errors"
 	"fmt"
@@ -28,7 +29,13 @@ const (
 	c20err
 	c20panicErr
 	c20panicStr
+	c20panicWrap // panics with a Go error that itself wraps a lisp error (a callback's throw, passed on)
+	c20errWrap   // returns such an error
 )
+
+// a Go error of the function's own that wraps a lisp error: what a bound function does when a lisp
+// callback it called threw and it passes the failure on with its own context
+var c20WrapErr = fmt.Errorf("go side gave up: %w", lisperror.NewLispError("thrown by a callback", nil))
 
 type c20key struct{}
 
@@ -61,23 +68,34 @@ func c20enter(idx int, ctx context.Context, fixed []any, rest []any) int {
 		panic(ErrPan)
 	case c20panicStr:
 		panic("pans")
+	case c20panicWrap:
+		panic(c20WrapErr)
 	}
 	return c20State.mode
 }
 
 func c20retErr(mode int) error {
+	if mode == c20errWrap {
+		return c20WrapErr
+	}
 	if mode == c20err {
 		return ErrBoom
 	}
 	return nil
 }
 func c20retVal(mode int) (types.MalType, error) {
+	if mode == c20errWrap {
+		return nil, c20WrapErr
+	}
 	if mode == c20err {
 		return nil, ErrBoom
 	}
 	return "res", nil
 }
 func c20retInt(mode int) (int, error) {
+	if mode == c20errWrap {
+		return 0, c20WrapErr
+	}
 	if mode == c20err {
 		return 0, ErrBoom
 	}
@@ -201,6 +219,14 @@ func init() {
 	vf.Register("C20", func() *vf.Check {
 		cfgs := c20Configs()
 		maxLen := 4
+		if vf.Tier == "thorough" {
+			// one more argument, two more kinds of value (bool, hash map)
+			maxLen = 5
+			if len(c20ArgVals) == 6 {
+				c20ArgVals = append(c20ArgVals, true, types.HashMap{Val: map[string]types.MalType{"k": 1}})
+				c20ArgNames = append(c20ArgNames, "true", `{"k" 1}`)
+			}
+		}
 		nArgs := seqSpace{len(c20ArgVals), maxLen}
 		descr := func(i int64) string {
 			c := cfgs[i]
@@ -208,7 +234,7 @@ func init() {
 			if c.viaOvr {
 				ep = "call.CallOverrideFN"
 			}
-			return fmt.Sprintf("%s(func(%s), %s) x all argument lists of length 0..%d over {nil 5 \"s\" (1) [2] <go error>}", ep, c20Table[c.fn].Desc, c.b, maxLen)
+			return fmt.Sprintf("%s(func(%s), %s) x all argument lists of length 0..%d over {%s}", ep, c20Table[c.fn].Desc, c.b, maxLen, strings.Join(c20ArgNames, " "))
 		}
 		shape := func(c c20config) string {
 			e := c20Table[c.fn]
@@ -227,7 +253,7 @@ func init() {
 		}
 		contract := &vf.Family{
 			Name:   "signature-x-bounds-x-args",
-			Bounds: fmt.Sprintf("%d generated signatures (ctx or not; 0-2 fixed parameters of types int/string/MalType/List/Vector/error; variadic none/...MalType/...int/...error; results none/error/(MalType,error)/(int,error)) x declared bounds none/(m)/(m,M) for fixed<=m<=M<=3 x both registration entry points; each called with every argument list of length 0..4 over {nil, int, string, list, vector, Go error}; result/err/panic modes on a legal call", len(c20Table)),
+			Bounds: fmt.Sprintf("%d generated signatures (ctx or not; 0-2 fixed parameters of types int/string/MalType/List/Vector/error; variadic none/...MalType/...int/...error; results none/error/(MalType,error)/(int,error)) x declared bounds none/(m)/(m,M) for fixed<=m<=M<=3 x both registration entry points; each called with every argument list of length 0..4 over {nil, int, string, list, vector, Go error} (thorough: length 0..5, also a bool and a hash map); result/err/panic modes on a legal call", len(c20Table)),
 			N:        func(string) int64 { return int64(len(cfgs)) },
 			Describe: descr,
 			Run: func(i int64, r *vf.Rec) {
@@ -348,14 +374,14 @@ func init() {
 					el = append(el, q(a))
 				}
 				t := reflect.TypeOf(e.Fn)
-				for _, mode := range []int{c20err, c20panicErr, c20panicStr} {
-					if mode == c20err && t.NumOut() == 0 {
+				for _, mode := range []int{c20err, c20panicErr, c20panicStr, c20panicWrap, c20errWrap} {
+					if (mode == c20err || mode == c20errWrap) && t.NumOut() == 0 {
 						continue
 					}
 					c20State.entered, c20State.mode = 0, mode
 					_, err, p := lx.Eval(ctx, types.List{Val: el}, ns)
 					r.Exec(1)
-					what := []string{"", "returned error", "panic(error)", "panic(string)"}[mode]
+					what := []string{"", "returned error", "panic(error)", "panic(string)", "panic(Go error wrapping a lisp error)", "returned Go error wrapping a lisp error"}[mode]
 					if p != nil {
 						r.Violation("panic inside a bound function escapes: "+what, p.String())
 						break
@@ -370,6 +396,10 @@ func init() {
 					}
 					if mode == c20panicErr && !errors.Is(err, ErrPan) {
 						r.Violation("panicked Go error no longer reachable with errors.Is", err.Error())
+						break
+					}
+					if (mode == c20panicWrap || mode == c20errWrap) && !errors.Is(err, c20WrapErr) {
+						r.Violation(what+": the function's own Go error is no longer reachable with errors.Is", err.Error())
 						break
 					}
 					// catchable
@@ -433,6 +463,7 @@ func init() {
 		}
 		_ = model.Nil
 		return &vf.Check{
+			RacePass: c20RacePass,
 			ID: "C20", Level: "model_checking",
 			Rule: "every (signature, declared bounds, entry point) configuration is registered through the real binder and called through EVAL with every argument list up to length 4; whether the Go function must be entered is computed from its reflect.Type alone (count within declared or derived bounds, every argument assignable, nil only to empty-interface parameters) and compared with what the instrumented function recorded (entered, arguments, context marker), plus result/err/panic conventions; non-trivial = configuration with at least one legal call",
 			Assumptions: []string{"declared bounds count lisp arguments (as the comments at the call.Call(env, apply, 2) sites say), not the injected context", "declared bounds below the number of fixed parameters are not generated (inconsistent declaration)"},
